@@ -46,8 +46,26 @@ func genCase(r *vh.Rand, thorough bool) string {
 	lqPending := false
 	var closeOps []string
 	closeAt := -1
+	wholeNode := false
+	handOpen := false // a TR without its AR yet
+	lastReady := uint64(0)
+	// applied values on both sides of the last confirmed read index (the "index <= applied" boundary)
+	applied := func(alt []uint64) uint64 {
+		if lastReady > 0 && r.Chance(1, 2) {
+			return lastReady - 1 + uint64(r.Intn(3))
+		}
+		return alt[r.Intn(len(alt))]
+	}
+	readyIdx := func() uint64 {
+		v := []uint64{0, 1, 5, 5, 10, 2, 6}[r.Intn(7)]
+		if v > 0 {
+			lastReady = v
+		}
+		return v
+	}
 	if r.Chance(2, 5) {
 		closeAt = r.Intn(nops)
+		wholeNode = r.Chance(1, 3)
 		closeOps = append(closeOps, "XR")
 		for k := uint64(0); k < ps; k++ {
 			if r.Chance(1, 3) {
@@ -62,6 +80,9 @@ func genCase(r *vh.Rand, thorough bool) string {
 			}
 		}
 		closeOps = append(closeOps, "XC", "XS", "XL")
+		if wholeNode {
+			closeOps = []string{"XN"} // the real node.close()
+		}
 	}
 	emit := func(f string, a ...interface{}) { ops = append(ops, fmt.Sprintf(f, a...)) }
 	pickProp := func() (gprop, bool) {
@@ -93,7 +114,7 @@ func genCase(r *vh.Rand, thorough bool) string {
 			ops = append(ops, closeOps...)
 			break
 		}
-		switch x := r.Intn(150); {
+		switch x := r.Intn(172); {
 		case x < 16:
 			nkey += uint64(1 + r.Intn(2))
 			p := gprop{uint64(1 + r.Intn(3)), uint64(1 + r.Intn(2)), nkey}
@@ -131,7 +152,9 @@ func genCase(r *vh.Rand, thorough bool) string {
 			emit("TP %d", r.Intn(2))
 		case x < 66:
 			emit("TR")
+			handOpen = true
 			if r.Chance(4, 5) {
+				handOpen = false
 				nctx++
 				hi := tick + 30
 				if r.Chance(1, 5) {
@@ -141,6 +164,7 @@ func genCase(r *vh.Rand, thorough bool) string {
 				emit("AR %d %d", nctx, hi)
 			}
 		case x < 70:
+			handOpen = false
 			if len(ctxs) > 0 && r.Chance(1, 30) {
 				c := ctxs[r.Intn(len(ctxs))]
 				emit("AR %d %d", c.lo, c.hi) // same ctx again: the code panics if requests are in hand
@@ -152,10 +176,10 @@ func genCase(r *vh.Rand, thorough bool) string {
 		case x < 76:
 			if len(ctxs) > 0 {
 				c := ctxs[len(ctxs)-1-r.Intn(min(len(ctxs), 3))]
-				emit("RY %d %d %d", c.lo, c.hi, []uint64{0, 1, 5, 5, 10}[r.Intn(5)])
+				emit("RY %d %d %d", c.lo, c.hi, readyIdx())
 			}
 		case x < 82:
-			emit("RA %d", []uint64{0, 1, 5, 7, 10, 100}[r.Intn(6)])
+			emit("RA %d", applied([]uint64{0, 1, 5, 7, 10, 100}))
 		case x < 84:
 			if len(ctxs) > 0 {
 				c := ctxs[len(ctxs)-1-r.Intn(min(len(ctxs), 3))]
@@ -297,6 +321,63 @@ func genCase(r *vh.Rand, thorough bool) string {
 			}
 		case x < 148:
 			emit("QS %d", []int{1, 1, 1, 0}[r.Intn(4)])
+		case x < 151:
+			// session register / unregister requests (node.proposeSession)
+			nkey += uint64(1 + r.Intn(2))
+			reg := r.Intn(2)
+			sid := uint64(1<<64 - 1)
+			if reg == 1 {
+				sid = 1<<64 - 2
+			}
+			p := gprop{uint64(1 + r.Intn(3)), sid, nkey}
+			to := genTimeout(r)
+			emit("PS %d %d %d %d %d", p.cid, reg, p.key, to, r.Intn(4))
+			if to != 0 {
+				props = append(props, p)
+				nreq++
+			}
+		case x < 152:
+			nkey++
+			emit("PB %d %d %d %d", 1+r.Intn(3), 1+r.Intn(2), nkey, 1+r.Intn(5))
+		case x < 157:
+			// the real node.handleReadIndex, usually after a few reads
+			for k := 0; k < r.Intn(3); k++ {
+				to := genTimeout(r)
+				emit("R %d %d", to, r.Intn(4))
+				if to != 0 {
+					nreq++
+				}
+			}
+			if !handOpen {
+				nctx++
+				ctxs = append(ctxs, gctx{nctx, tick + 30})
+				emit("HR %d", nctx)
+			}
+		case x < 161:
+			if len(ctxs) > 0 {
+				c := ctxs[len(ctxs)-1-r.Intn(min(len(ctxs), 3))]
+				ri := readyIdx()
+				a := applied([]uint64{0, 1, 5, 7, 10, 100})
+				if r.Chance(1, 2) {
+					// the update also carries committed entries beyond the applied index (fast apply or not)
+					emit("PR %d %d %d %d %d %d", c.lo, c.hi, ri, a, r.Intn(2), max(a, ri)+uint64(r.Intn(3)))
+				} else {
+					emit("PR %d %d %d %d", c.lo, c.hi, ri, a)
+				}
+			}
+		case x < 166:
+			p, _ := pickProp()
+			p = aim(p)
+			rej, ign := 0, 0
+			if r.Chance(1, 8) {
+				rej = 1
+			}
+			if r.Chance(1, 8) {
+				ign = 1
+			}
+			emit("AU %d %d %d %d %d %d %d", p.cid, p.sid, p.key, r.Intn(1000), rej, applied([]uint64{0, 1, 5, 7, 10}), ign)
+		case x < 170:
+			emit("NG")
 		default:
 			// a client that polls and releases right away
 			i := r.Intn(nreq + 1)
